@@ -50,6 +50,8 @@ type faultStringWriter struct{ faultWriter }
 func (w *faultStringWriter) WriteString(s string) (int, error) { return w.Write([]byte(s)) }
 
 func runC10(e *emitter, tier string, seed uint64) {
+	// overlapping renders that share the buffer pools (the concurrent phase of C14): exactness / all-or-nothing must not depend on what other requests do
+	defer runC14(e, tier, seed)
 	r := &rng{s: seed}
 	// 1. runtime.Buffer against the bufio model: small capacities, every fault offset, both fault modes, Write / WriteString / Flush
 	doBuf := func(capN int, limit int, zero, sw bool, ops []string) {
@@ -184,6 +186,20 @@ func c10Components() []c10Comp {
 		{"nested-fail", func() templ.Component { return tmpl.FailingNested(true) }, "-"},
 		{"nested-ok", func() templ.Component { return tmpl.FailingNested(false) }, "-"},
 		{"children-to-plain-writer", func() templ.Component { return tmpl.Page("t", 3) }, "-"},
+		{"flush-block-expr-fail", func() templ.Component { return tmpl.FailingInFlush("x", true) }, lines[2]},
+		{"flush-block-nested-fail", func() templ.Component { return tmpl.FailingNestedInFlush(true) }, "-"},
+		{"flush-block-ok", func() templ.Component { return tmpl.FailingInFlush("x", false) }, "-"},
+	}
+}
+
+// c10OKVariants: for components that fail by themselves, the same component with the failure switched off.
+func c10OKVariants() map[string]func() templ.Component {
+	return map[string]func() templ.Component{
+		"expr-fail":               func() templ.Component { return tmpl.FailingExpr("x", false) },
+		"attr-fail":               func() templ.Component { return tmpl.FailingAttr("x", false) },
+		"nested-fail":             func() templ.Component { return tmpl.FailingNested(false) },
+		"flush-block-expr-fail":   func() templ.Component { return tmpl.FailingInFlush("x", false) },
+		"flush-block-nested-fail": func() templ.Component { return tmpl.FailingNestedInFlush(false) },
 	}
 }
 
@@ -216,6 +232,13 @@ func c10Renders(e *emitter, r *rng, tier string) {
 		doc := full.String()
 		kind, line := c10ErrKind(errFull)
 		e.emit("render "+c.name+" none", "render", c.name, "-", "false", hx(doc), hx(doc), kind, line, c.exprLines)
+		// a component that fails by itself: it must report an error and have written a proper prefix of what its
+		// non-failing variant writes
+		if mkOK, ok := c10OKVariants()[c.name]; ok {
+			var okDoc strings.Builder
+			_ = mkOK().Render(bg, &okDoc)
+			e.emit("selffail "+c.name, "selffail", c.name, hx(okDoc.String()), hx(doc), kind)
+		}
 		// every fault offset (a stride on big documents in the quick tier), both fault modes, then a healthy render
 		stride := 1
 		if tier != "thorough" && len(doc) > 600 {
@@ -247,7 +270,7 @@ func c10Renders(e *emitter, r *rng, tier string) {
 		var cw strings.Builder
 		errC := c.mk().Render(cctx, &cw)
 		kc, _ := c10ErrKind(errC)
-		if c.name != "raw" && c.name != "join" && c.name != "jsonscript" && c.name != "once" && c.name != "flush" {
+		{
 			e.emit("render "+c.name+" cancelled", "render", c.name+"-cancelled", "-", "false", hx(""), hx(cw.String()), map[bool]string{true: "nil", false: kc}[kc == "ctx" && cw.Len() == 0], "-", "-")
 		}
 	}
